@@ -245,3 +245,50 @@ def git_rev(path):
         return r.stdout.strip() + ("-dirty" if d.stdout.strip() else "")
     except Exception:
         return "unknown"
+
+
+# --------------------------------------------------------------------------------------
+# private scratch directories (one parent per worker process: creating many directories under one
+# shared parent from 16 processes serialises on the parent's inode lock)
+
+import atexit
+import shutil
+import tempfile
+
+_SCRATCH = {"pid": None, "dir": None, "n": 0}
+
+
+def _scratch_parent():
+    if _SCRATCH["pid"] != os.getpid():
+        _SCRATCH["pid"] = os.getpid()
+        _SCRATCH["dir"] = tempfile.mkdtemp(prefix="mcw{}_".format(os.getpid()))
+        _SCRATCH["n"] = 0
+        atexit.register(shutil.rmtree, _SCRATCH["dir"], True)
+    return _SCRATCH["dir"]
+
+
+@contextlib.contextmanager
+def scratch_dir(chdir=True):
+    """a fresh empty private directory (removed afterwards); optionally the cwd for the duration"""
+    parent = _scratch_parent()
+    _SCRATCH["n"] += 1
+    d = os.path.join(parent, "c{}".format(_SCRATCH["n"]))
+    os.mkdir(d)
+    cwd = os.getcwd()
+    try:
+        if chdir:
+            os.chdir(d)
+        yield d
+    finally:
+        if chdir:
+            os.chdir(cwd)
+        shutil.rmtree(d, ignore_errors=True)
+
+
+def mkdtemp(prefix="x"):
+    """drop-in for tempfile.mkdtemp under the per-process scratch parent (caller removes it)"""
+    parent = _scratch_parent()
+    _SCRATCH["n"] += 1
+    d = os.path.join(parent, "{}{}".format(prefix, _SCRATCH["n"]))
+    os.mkdir(d)
+    return d
